@@ -39,7 +39,7 @@ def shapes(tier):
         for b in ns:
             out.append(dict(part='insert', tree=[(a, 0), (b, 1)]))
     out.append(dict(part='batch', trees=[[((1, 1, 2), 0)], [((1, 1, 0), 1)]]))
-    for old in (0, 1):
+    for old in (0, 1, 2):       # previous version: none / stored in a room / stored without a room
         for has_node in (0, 1):
             out.append(dict(part='sync_node', old=old, has_node=has_node))
     for nn in (0, 1, 2):
@@ -186,10 +186,11 @@ def explore(ctx, shape, tier, report, dates_in_range=True):
                 short = w.atom('short', None, 'str')
                 mdate = w.i64('mdate')
                 node = mk_node(w, 's', room, mdate, short, nid) if shape['has_node'] else None
-                old_room = w.atom('old_room', ROOMS, 'uid', n=16) if shape['old'] else None
+                old_room = w.atom('old_room', ROOMS, 'uid', n=16) if shape['old'] == 1 else None
                 old_mdate = w.i64('old_mdate')
                 nti = w.struct('NodeToInsert', id=nid, node=w.opt(node), entity_name=none(), index=True, old_room_id=w.opt(old_room), old_mdate=old_mdate,
-                               old_verifying_key=w.opt(KEYS[0] if shape['old'] else None), old_local_id=none(), old_fts_str=none(), node_fts_str=none())
+                               old_verifying_key=w.opt(KEYS[0] if shape['old'] else None), old_local_id=w.opt(w.i64('old_local_id') if shape['old'] else None),
+                               old_fts_str=none(), node_fts_str=none())
                 if node is not None:
                     reqs.append(Req(room, short, mdate, 'synchronised row'))
                     if old_room is not None:
